@@ -1656,7 +1656,7 @@ def add_source_table(repo, run, rule):
                             return Opaque('cm')
                         raise Unsupported('call of ' + n)
 
-                    def _open(name, mode='r', log=log, outcome=outcome):
+                    def _open(name, mode='r', log=log, outcome=outcome, **open_options):
                         log.append(('open', name))
                         if outcome == 'ok':
                             return Obj('file', 'TextIO')
@@ -1881,7 +1881,7 @@ def dump_table(repo, run, rule):
                 return o
             fobj = Obj('file', 'TextIO')
 
-            def _open(name, mode='r', log=log, fobj=fobj):
+            def _open(name, mode='r', log=log, fobj=fobj, **open_options):
                 log.append(('open', name, mode))
                 return fobj
 
